@@ -334,7 +334,7 @@ theorem rlFrom_step (size : Option Nat) (n : Nat) (hn : 1 ≤ n) (f : BF Chan) (
     let r : Res Chan Bytes :=
       if line.contains LF then readlinePost (f, .ok (.brk line false))
       else match chanOps.read f.s f.realpos n with
-        | (s', .error e) => readlinePost ({ f with s := s' }, .error e)
+        | (s', .error e) => readlinePost ({ f with s := s', rbuf := line }, .error e)
         | (s', .ok d) =>
           if d.isEmpty then
             readlinePost ({ f with s := s', rbuf := [], pos := f.pos + line.length }, .ok (.eof line))
@@ -383,7 +383,7 @@ theorem rlFrom_succ (size : Option Nat) (fuel : Nat) (f : BF Chan) (line : Bytes
    rlFrom size (fuel+1) f line =
       if line.contains LF then readlinePost (f, .ok (.brk line false))
       else match chanOps.read f.s f.realpos n with
-        | (s', .error e) => readlinePost ({ f with s := s' }, .error e)
+        | (s', .error e) => readlinePost ({ f with s := s', rbuf := line }, .error e)
         | (s', .ok d) =>
           if d.isEmpty then
             readlinePost ({ f with s := s', rbuf := [], pos := f.pos + line.length }, .ok (.eof line))
